@@ -833,7 +833,8 @@ func genBig(id int, seed int64) SeqCase {
 	inner := &gStore{in: memory.NewStore(), c: c}
 	memo := memoization.New(inner)
 	plain := memory.NewStore()
-	cs := SeqCase{Kind: "seq", ID: id, Seed: seed, Big: n}
+	// Faults: the last part injects failures of the wrapped lookups deep inside long streams
+	cs := SeqCase{Kind: "seq", ID: id, Seed: seed, Big: n, Faults: true}
 	mh := must(memo.NewGraph(ctx, "?a"))
 	pg := must(plain.NewGraph(ctx, "?a"))
 	c.takeLog()
@@ -848,6 +849,16 @@ func genBig(id int, seed int64) SeqCase {
 		pi := must(predicate.Parse(fmt.Sprintf(`"q%04d"@[]`, i)))
 		ts = append(ts, must(triple.New(s0, p0, oi)), must(triple.New(si, p0, o0)), must(triple.New(s0, pi, o0)))
 	}
+	// a fourth family with pairwise different answers per question: (s_i, r_i, o_i) for the first `many` indices
+	const many = 300
+	var ds []*triple.Triple
+	for i := 0; i < many; i++ {
+		oi := triple.NewNodeObject(must(node.Parse(fmt.Sprintf("/o<%04d>", i))))
+		si := must(node.Parse(fmt.Sprintf("/s<%04d>", i)))
+		ri := must(predicate.Parse(fmt.Sprintf(`"r%04d"@[]`, i)))
+		ds = append(ds, must(triple.New(si, ri, oi)))
+	}
+	ts = append(ts, ds...)
 	write := func(k string, w []*triple.Triple) {
 		var err, perr error
 		if k == "add" {
@@ -880,6 +891,40 @@ func genBig(id int, seed int64) SeqCase {
 	for _, op := range streaming[:3] {
 		read(&Query{Op: op, S: s0, P: p0, O: o0, T: ts[0]})
 	}
+	// a long read-only run: `many` DISTINCT questions of one kind (one per result map of the memoizer), each with its own
+	// answer, then the early ones again
+	absent := must(triple.New(s0, p0, triple.NewNodeObject(must(node.Parse("/no<where>")))))
+	for _, op := range []string{"Exist", "TriplesForSubject", "Subjects", "PredicatesForSubject", "Objects"} {
+		qs := []*Query{}
+		for i, d := range ds {
+			q := &Query{Op: op, S: d.Subject(), P: d.Predicate(), O: d.Object(), T: d}
+			if op == "Exist" && i%2 == 1 {
+				q.T = must(triple.New(d.Subject(), absent.Predicate(), d.Object())) // not stored: false
+				if i%4 == 1 {
+					q.T = must(triple.New(d.Subject(), d.Predicate(), absent.Object()))
+				}
+			}
+			qs = append(qs, q)
+			read(q)
+		}
+		for _, q := range qs[:4] {
+			read(q)
+		}
+		read(qs[many-1])
+	}
+	// failures of the wrapped lookup deep inside a long stream: the wrapper must report them
+	write("remove", ds[:1])
+	all := &Query{Op: "Triples", S: s0, P: p0, O: o0, T: ts[0]}
+	subj := &Query{Op: "TriplesForSubject", S: s0, P: p0, O: o0, T: ts[0]}
+	for _, k := range []int{300, 1100, 10} {
+		c.readFaults[c.nReads] = k
+		read(all)
+		c.readFaults[c.nReads] = k
+		read(subj)
+	}
+	read(all)
+	read(all)
+	read(subj)
 	return cs
 }
 
